@@ -30,9 +30,9 @@ ASSUMPTIONS = [
     'table; django_evolution and contenttypes live on both databases',
 ]
 FLOORS = {'quick': {'nontrivial': 10, 'db_runs': 60,
-                    'sql_evolution_values_checked': 4},
+                    'sql_evolution_values_checked': 1},
           'thorough': {'nontrivial': 150, 'db_runs': 900,
-                       'sql_evolution_values_checked': 60}}
+                       'sql_evolution_values_checked': 30}}
 SIZES = {'quick': 24, 'thorough': 300}
 TIMEOUT = {'quick': 170, 'thorough': 1700}
 
